@@ -272,6 +272,8 @@ def call_native(interp, fn, args, kwargs):
         return args[1]
     if name == "assert_never":
         raise PyRaise("AssertionError", "assert_never")
+    if type(fn).__name__ == "NewType" or builtins.getattr(fn, "__supertype__", None) is not None:
+        return args[0]  # typing.NewType is the identity at run time
     if fn is functools.partial:
         from .interp import _Partial
 
